@@ -219,6 +219,11 @@ def shard_main(ctx):
         hp.descriptors = [['a'], ['b'], ['a'], ['*']]
         ctx.run_hypothesis([gen.charts(hp, 'promela'), gen.event_histories(6, ['a', 'b'])], lambda ch, evs: check_case(ctx, ch, evs),
                            p["charts"] // (3 * ctx.nshards) + 1, case_repr, name="history")
+        ctx.run_hypothesis([gen.parallel_final_charts('promela'), gen.event_histories(8, ['a', 'b', 'c', 'a', 'b', 'c', 'leave', 'back'])],
+                           lambda ch, evs: check_case(ctx, ch, evs), p["charts"] // (6 * ctx.nshards) + 1, case_repr, name="pardone")
+        # event descriptor resolution (the Promela back-end resolves descriptors statically against the names it finds)
+        ctx.run_hypothesis([gen.descriptor_charts('promela'), st.just([])], lambda ch, evs: check_case(ctx, ch, evs),
+                           p["charts"] // (6 * ctx.nshards) + 1, case_repr, name="descriptors")
         cp = gen.completion_profile()
         cp.in_conds = False
         ctx.run_hypothesis([gen.charts(cp, 'promela'), gen.event_histories(4, ['a', 'b'])], lambda ch, evs: check_case(ctx, ch, evs),
